@@ -36,6 +36,7 @@ import Drivers.InterpLocate
 import Drivers.PhysDist
 import Drivers.MetricPipe
 import Drivers.Formats
+import Drivers.Cavity2
 
 /-! `refdrv <driver> [args]` : dispatch to a line-protocol driver. One match arm per driver, on one line. -/
 
@@ -77,6 +78,7 @@ def main (args : List String) : IO UInt32 := do
   | "physdist" :: rest => Drivers.PhysDist.run rest
   | "metricpipe" :: rest => Drivers.MetricPipe.run rest
   | "formats" :: rest => Drivers.Formats.run rest
+  | "cavity2" :: rest => Drivers.Cavity2.run rest
   | _ =>
     IO.eprintln s!"refdrv: unknown driver {args}"
     return 2
